@@ -22,6 +22,7 @@ SLICES = {
     'guard': ('GuardCfgsS', 'GuardOuts', 'OkHooks', 'NoWrites'),
     'vec': ('VecCfgsS', 'VecOuts', 'OkHooks', 'NoWrites'),
     'hook': ('HookCfgsS', 'HookOutsEq', 'BothHooks', 'SomeWrites'),
+    'empty': ('EmptyCfgsS', 'EmptyOuts', 'BothHooks', 'NoWrites'),
     'long': ('LongCfgsS', 'LongOuts', 'BothHooks', 'NoWrites'),
 }
 
